@@ -1,34 +1,376 @@
-//! probe (temporary)
+//! C13 — stabiliser presentation, core and intersection tables: drives the real
+//! `stabilizer`, `core_table`, `intersection_table`.
+//!
+//! group header  G = <name> <nr_gens> <rels> (F <order> <degree> <images> | I)
+//! IN  stab  G <table> <base>            OUT <generators> <relators>
+//! IN  core  G <table> <seed>            OUT <core table> <core table, BFS renumbered from row 0>
+//! IN  inter G <table a> <table b> <seed> OUT <table> <table, BFS renumbered from row 0>
+//!
+//! Tables are the public view (`get` under `all_gens()`); they are produced by the real
+//! `coset_table` (corpus groups × subgroups) and `coset_tables` (low index).
+use rust_dsymbols::dsyms::PartialDSym;
 use rust_dsymbols::fpgroups::cosets::{coset_table, coset_tables, core_table, intersection_table, CosetTable};
 use rust_dsymbols::fpgroups::free_words::FreeWord;
 use rust_dsymbols::fpgroups::stabilizer::stabilizer;
+use rust_dsymbols::fundamental_group::fundamental_group;
+use std::collections::HashSet;
 use std::panic::{catch_unwind, AssertUnwindSafe};
+use verif_harness::groups::{corpus, Group};
+use verif_harness::{enc_lists, Ctx, Rng};
 
-fn fw(raw: &[isize]) -> FreeWord { FreeWord::new(raw.iter().cloned()) }
-fn view(t: &CosetTable) -> Vec<Vec<isize>> {
-    (0..t.len()).map(|c| t.all_gens().iter().map(|&g| t.get(c, g).map(|d| d as isize).unwrap_or(-1)).collect()).collect()
+fn fw(raw: &[isize]) -> FreeWord {
+    FreeWord::new(raw.iter().cloned())
 }
-fn show(name: &str, n: usize, rels: &[Vec<isize>], k: usize) {
-    let r: Vec<FreeWord> = rels.iter().map(|w| fw(w)).collect();
-    for t in coset_tables(n, &r, k) {
-        for b in 0..t.len() {
-            let res = catch_unwind(AssertUnwindSafe(|| stabilizer(b, r.clone(), &t)));
-            match res {
-                Ok((g, s)) => println!("{name} rows={} base={b} table={:?} gens={:?} rels={:?}", t.len(), view(&t),
-                    g.iter().map(|w| w.iter().cloned().collect::<Vec<_>>()).collect::<Vec<_>>(),
-                    s.iter().map(|w| w.iter().cloned().collect::<Vec<_>>()).collect::<Vec<_>>()),
-                Err(_) => println!("{name} rows={} base={b} table={:?} PANIC", t.len(), view(&t)),
+
+fn letters(w: &FreeWord) -> Vec<isize> {
+    w.iter().cloned().collect()
+}
+
+type View = Vec<Vec<isize>>;
+
+fn view(t: &CosetTable) -> View {
+    (0..t.len())
+        .map(|c| t.all_gens().iter().map(|&g| t.get(c, g).map(|d| d as isize).unwrap_or(-1)).collect())
+        .collect()
+}
+
+/// rows renamed in breadth-first order from row 0; empty if some row is not reached
+fn bfs_view(v: &[Vec<isize>]) -> View {
+    let n = v.len();
+    if n == 0 {
+        return vec![];
+    }
+    let mut o2n = vec![usize::MAX; n];
+    let mut order = vec![0usize];
+    o2n[0] = 0;
+    let mut i = 0;
+    while i < order.len() {
+        let c = order[i];
+        for &d in &v[c] {
+            if d >= 0 && (d as usize) < n && o2n[d as usize] == usize::MAX {
+                o2n[d as usize] = order.len();
+                order.push(d as usize);
             }
+        }
+        i += 1;
+    }
+    if order.len() != n {
+        return vec![];
+    }
+    order
+        .iter()
+        .map(|&c| v[c].iter().map(|&d| if d >= 0 && (d as usize) < n { o2n[d as usize] as isize } else { -1 }).collect())
+        .collect()
+}
+
+struct Grp {
+    name: String,
+    nr_gens: usize,
+    rels: Vec<Vec<isize>>,
+    /// `F order degree images` or `I`
+    kind: String,
+    finite: bool,
+}
+
+impl Grp {
+    fn finite(g: &Group) -> Grp {
+        Grp {
+            name: g.name.clone(),
+            nr_gens: g.nr_gens,
+            rels: g.rels.clone(),
+            kind: format!("F {} {} {}", g.order, g.degree, enc_lists(&g.perms)),
+            finite: true,
+        }
+    }
+    fn infinite(name: &str, nr_gens: usize, rels: Vec<Vec<isize>>) -> Grp {
+        Grp { name: name.to_string(), nr_gens, rels, kind: "I".to_string(), finite: false }
+    }
+    fn header(&self) -> String {
+        format!("{} {} {} {}", self.name, self.nr_gens, enc_lists(&self.rels), self.kind)
+    }
+    fn relators(&self) -> Vec<FreeWord> {
+        self.rels.iter().map(|w| fw(w)).collect()
+    }
+}
+
+fn bucket(rows: usize) -> &'static str {
+    match rows {
+        0..=1 => "rows=1",
+        2..=4 => "rows<=4",
+        5..=12 => "rows<=12",
+        13..=64 => "rows<=64",
+        _ => "rows>64",
+    }
+}
+
+struct Tables {
+    tabs: Vec<(CosetTable, View, &'static str)>,
+    seen: HashSet<View>,
+}
+
+impl Tables {
+    fn new() -> Tables {
+        Tables { tabs: vec![], seen: HashSet::new() }
+    }
+    fn add(&mut self, t: CosetTable, src: &'static str) {
+        let v = view(&t);
+        if self.seen.insert(v.clone()) {
+            self.tabs.push((t, v, src));
         }
     }
 }
+
+fn stab_case(ctx: &mut Ctx, g: &Grp, t: &CosetTable, v: &View, base: usize, src: &str) {
+    let nt = if v.len() >= 2 { "nt " } else { "" };
+    let tags = format!("{nt}op=stab grp={} src={src} {}", if g.finite { "finite" } else { "infinite" }, bucket(v.len()));
+    ctx.case(
+        "stab",
+        &tags,
+        || format!("{} {} {}", g.header(), enc_lists(v), base),
+        || {
+            let (gens, rels) = stabilizer(base, g.relators(), t);
+            let gl: Vec<Vec<isize>> = gens.iter().map(letters).collect();
+            let rl: Vec<Vec<isize>> = rels.iter().map(letters).collect();
+            format!("{} {}", enc_lists(&gl), enc_lists(&rl))
+        },
+    );
+}
+
+fn core_case(ctx: &mut Ctx, g: &Grp, t: &CosetTable, v: &View, seed: u64, src: &str) {
+    let nt = if v.len() >= 2 { "nt " } else { "" };
+    let tags = format!("{nt}op=core grp={} src={src} {}", if g.finite { "finite" } else { "infinite" }, bucket(v.len()));
+    ctx.case(
+        "core",
+        &tags,
+        || format!("{} {} {}", g.header(), enc_lists(v), seed),
+        || {
+            let c = view(&core_table(t));
+            format!("{} {}", enc_lists(&c), enc_lists(&bfs_view(&c)))
+        },
+    );
+}
+
+fn inter_case(ctx: &mut Ctx, g: &Grp, ta: &CosetTable, va: &View, tb: &CosetTable, vb: &View, seed: u64) {
+    let nt = if va.len() >= 2 && vb.len() >= 2 { "nt " } else { "" };
+    let tags = format!(
+        "{nt}op=inter grp={} {}",
+        if g.finite { "finite" } else { "infinite" },
+        bucket(va.len() * vb.len()).replace("rows", "product")
+    );
+    ctx.case(
+        "inter",
+        &tags,
+        || format!("{} {} {} {}", g.header(), enc_lists(va), enc_lists(vb), seed),
+        || {
+            let x = view(&intersection_table(ta, tb));
+            format!("{} {}", enc_lists(&x), enc_lists(&bfs_view(&x)))
+        },
+    );
+}
+
+/// every op on the collected tables of one group
+fn explore(ctx: &mut Ctx, g: &Grp, tabs: &Tables, rng: &mut Rng, th: bool, stab: bool) {
+    let all_bases = if th { 24 } else { 8 };
+    let core_rows = if th { 1200 } else { 400 };
+    for (t, v, src) in &tabs.tabs {
+        let rows = v.len();
+        if stab {
+            if rows <= all_bases {
+                for b in 0..rows {
+                    stab_case(ctx, g, t, v, b, src);
+                }
+            } else {
+                let mut bases = vec![0, 1, rows - 1];
+                for _ in 0..(if th { 4 } else { 2 }) {
+                    bases.push(rng.below(rows));
+                }
+                bases.sort();
+                bases.dedup();
+                for b in bases {
+                    stab_case(ctx, g, t, v, b, src);
+                }
+            }
+        }
+        if rows <= core_rows {
+            core_case(ctx, g, t, v, rng.next_u64() >> 16, src);
+        }
+    }
+    // all ordered pairs of tables with a bounded product (sampled by a stride if too many)
+    let bound = if th { 256 } else { 64 };
+    let cap = if th { 800 } else { 60 };
+    let mut pairs = vec![];
+    for (i, a) in tabs.tabs.iter().enumerate() {
+        for (j, b) in tabs.tabs.iter().enumerate() {
+            if a.1.len() * b.1.len() <= bound {
+                pairs.push((i, j));
+            }
+        }
+    }
+    let stride = (pairs.len() + cap - 1) / cap.max(1);
+    let off = if stride > 1 { rng.below(stride) } else { 0 };
+    for (k, (i, j)) in pairs.iter().enumerate() {
+        if stride <= 1 || k % stride == off {
+            let (ta, va, _) = &tabs.tabs[*i];
+            let (tb, vb, _) = &tabs.tabs[*j];
+            inter_case(ctx, g, ta, va, tb, vb, rng.next_u64() >> 16);
+        }
+    }
+}
+
+fn low_index(g: &Grp, k: usize, tabs: &mut Tables) {
+    let r = g.relators();
+    let n = g.nr_gens;
+    if let Ok(ts) = catch_unwind(AssertUnwindSafe(|| coset_tables(n, &r, k).collect::<Vec<_>>())) {
+        for t in ts {
+            tabs.add(t, "lowindex");
+        }
+    }
+}
+
+fn enumerated(g: &Grp, subs: &[Vec<isize>], tabs: &mut Tables) {
+    let r = g.relators();
+    let s: Vec<FreeWord> = subs.iter().map(|w| fw(w)).collect();
+    let n = g.nr_gens;
+    if let Ok(t) = catch_unwind(AssertUnwindSafe(|| coset_table(n, &r, &s))) {
+        tabs.add(t, "enumeration");
+    }
+}
+
+fn random_word(rng: &mut Rng, g: usize, maxlen: usize) -> Vec<isize> {
+    let len = 1 + rng.below(maxlen);
+    (0..len)
+        .map(|_| {
+            let x = rng.range(1, g as i64) as isize;
+            if rng.chance(1, 2) { x } else { -x }
+        })
+        .collect()
+}
+
+fn pw(w: &[isize], k: usize) -> Vec<isize> {
+    let mut v = vec![];
+    for _ in 0..k {
+        v.extend_from_slice(w);
+    }
+    v
+}
+
+fn comm(a: isize, b: isize) -> Vec<isize> {
+    vec![a, b, -a, -b]
+}
+
 fn main() {
-    std::panic::set_hook(Box::new(|_| {}));
-    show("F2", 2, &[], 2);
-    show("Z2", 2, &[vec![1,2,-1,-2]], 2);
-    show("Z+free", 2, &[vec![1,1]], 2);
-    show("conj", 2, &[vec![1,2,-1]], 2);
-    show("empty-rel", 2, &[vec![], vec![1,2,-1,-2]], 2);
-    show("S3", 2, &[vec![1,1], vec![2,2], vec![1,2,1,2,1,2]], 3);
-    let _ = (coset_table(1, &vec![], &vec![]).len(), core_table as fn(&CosetTable)->CosetTable, intersection_table as fn(&CosetTable,&CosetTable)->CosetTable);
+    let mut ctx = Ctx::from_args();
+    let th = ctx.thorough();
+
+    // (0) regression corpus: the inputs on which defects D13 and D14 were reported
+    {
+        let mut rng = ctx.rng(1300);
+        // D13: a letter that starts no rotation of a relator (free groups, free factors,
+        //      relators that are freely but not cyclically reduced)
+        for (name, n, rels, k) in [
+            ("F1", 1usize, vec![], 2usize),
+            ("F2", 2, vec![], 2),
+            ("Z2*Z", 2, vec![vec![1, 1]], 2),
+            ("Z-conj-relator", 2, vec![vec![1, 2, -1]], 2),
+            // D14: the empty relator, and a relator that reduces to it
+            ("Z^2+empty-relator", 2, vec![vec![], comm(1, 2)], 2),
+            ("Z^2+trivial-relator", 2, vec![vec![1, -1], comm(1, 2)], 2),
+        ] {
+            let g = Grp::infinite(name, n, rels);
+            let mut tabs = Tables::new();
+            low_index(&g, k, &mut tabs);
+            explore(&mut ctx, &g, &tabs, &mut rng, th, true);
+        }
+    }
+
+    // (1) the finite corpus groups: coset enumeration over a few subgroups + low index
+    for (gi, cg) in corpus().iter().enumerate() {
+        if !th && !cg.quick {
+            continue;
+        }
+        let g = Grp::finite(cg);
+        let mut rng = ctx.rng(1310 + gi as u64);
+        let mut tabs = Tables::new();
+        let ng = cg.nr_gens as isize;
+        if cg.order <= (if th { 1200 } else { 400 }) {
+            enumerated(&g, &[], &mut tabs);
+        }
+        for x in 1..=ng {
+            enumerated(&g, &[vec![x]], &mut tabs);
+        }
+        let all: Vec<Vec<isize>> = (1..=ng).map(|x| vec![x]).collect();
+        enumerated(&g, &all, &mut tabs);
+        if ng >= 2 {
+            enumerated(&g, &[vec![1, 2]], &mut tabs);
+            enumerated(&g, &[vec![1, 1], vec![2]], &mut tabs);
+        }
+        for _ in 0..(if th { 12 } else { 3 }) {
+            let k = 1 + rng.below(2);
+            let subs: Vec<Vec<isize>> = (0..k).map(|_| random_word(&mut rng, cg.nr_gens, 5)).collect();
+            enumerated(&g, &subs, &mut tabs);
+        }
+        low_index(&g, (if th { 6 } else { 4 }).min(cg.order.max(1)), &mut tabs);
+        explore(&mut ctx, &g, &tabs, &mut rng, th, true);
+    }
+
+    // (2) infinite groups: (name, gens, relators, index bound quick, thorough)
+    let inf: Vec<(&str, usize, Vec<Vec<isize>>, usize, usize)> = vec![
+        ("F2", 2, vec![], 3, 4),
+        ("F3", 3, vec![], 2, 3),
+        ("Z^2", 2, vec![comm(1, 2)], 4, 6),
+        ("Z^3", 3, vec![comm(1, 2), comm(1, 3), comm(2, 3)], 3, 4),
+        ("surface-genus-2", 4, vec![[comm(1, 2), comm(3, 4)].concat()], 2, 3),
+        ("klein-bottle", 2, vec![vec![1, 2, -1, 2]], 4, 6),
+        ("nonorientable-genus-3", 3, vec![vec![1, 1, 2, 2, 3, 3]], 3, 4),
+        ("triangle-2-3-7", 2, vec![pw(&[1], 2), pw(&[2], 3), pw(&[1, 2], 7)], 7, 9),
+        ("triangle-2-4-5", 2, vec![pw(&[1], 2), pw(&[2], 4), pw(&[1, 2], 5)], 6, 8),
+        ("triangle-2-3-6", 2, vec![pw(&[1], 2), pw(&[2], 3), pw(&[1, 2], 6)], 4, 6),
+        ("modular-Z2*Z3", 2, vec![pw(&[1], 2), pw(&[2], 3)], 4, 6),
+        ("infinite-dihedral", 2, vec![pw(&[1], 2), pw(&[2], 2)], 4, 6),
+        ("BS-1-2", 2, vec![vec![1, 2, -1, -2, -2]], 4, 6),
+        ("trefoil", 2, vec![vec![1, 2, 1, -2, -1, -2]], 4, 5),
+        ("Z2*Z", 2, vec![vec![1, 1]], 3, 4),
+        ("Z-conj-relator", 2, vec![vec![1, 2, -1]], 4, 6),
+    ];
+    for (gi, (name, ng, rels, kq, kt)) in inf.iter().enumerate() {
+        let g = Grp::infinite(name, *ng, rels.clone());
+        let mut rng = ctx.rng(1400 + gi as u64);
+        let mut tabs = Tables::new();
+        low_index(&g, if th { *kt } else { *kq }, &mut tabs);
+        explore(&mut ctx, &g, &tabs, &mut rng, th, true);
+    }
+
+    // (3) fundamental groups of euclidean and hyperbolic symbols, tables of index <= 4
+    let symbols: Vec<(&str, &str)> = vec![
+        ("e2", "<1.1:1:1,1,1:3,6>"),
+        ("e2", "<1.1:1:1,1,1:4,4>"),
+        ("e2", "<1.1:2:2,2,2:4,4>"),
+        ("e2", "<1.1:2:2,2,2:3,6>"),
+        ("e2", "<1.1:3:1 2 3,1 3,2 3:4 8,3>"),
+        ("e2", "<1.1:2:1 2,1 2,2:3 4,4>"),
+        ("h2", "<1.1:1:1,1,1:3,7>"),
+        ("h2", "<1.1:1:1,1,1:4,5>"),
+        ("h2", "<1.1:2:2,2,2:4,5>"),
+        ("h2", "<1.1:2:1 2,1 2,2:3 4,5>"),
+        ("e3", "<1.1:1 3:1,1,1,1:4,3,4>"),
+        ("e3", "<1.1:2 3:2,1 2,1 2,2:6,3 2,6>"),
+        ("e3", "<1.1:2 3:2,2,2,2:4,3,4>"),
+    ];
+    for (si, (kind, s)) in symbols.iter().enumerate() {
+        let ds = match s.parse::<PartialDSym>() {
+            Ok(d) => d,
+            Err(_) => continue,
+        };
+        let fg = match catch_unwind(AssertUnwindSafe(|| fundamental_group(&ds))) {
+            Ok(f) => f,
+            Err(_) => continue,
+        };
+        let rels: Vec<Vec<isize>> = fg.relators.iter().map(letters).collect();
+        let g = Grp::infinite(&format!("pi1-{kind}-{si}"), fg.nr_generators(), rels);
+        let mut rng = ctx.rng(1500 + si as u64);
+        let mut tabs = Tables::new();
+        low_index(&g, if th { 4 } else { 3 }, &mut tabs);
+        explore(&mut ctx, &g, &tabs, &mut rng, th, true);
+    }
+    ctx.finish();
 }
